@@ -178,6 +178,15 @@ class Ctx:
         self.models.append({'module': module, 'cfg': cfg or module + '.cfg', 'distinct': r.distinct, 'generated': r.generated, 'wall_s': round(r.wall, 1)})
         return r
 
+    def model_expect_violation(self, module, cfg, what, **kw):
+        """The same model with a named design defect switched on MUST violate `what` (an invariant / property name):
+        guards against a vacuous model.  Anything else => Inconclusive."""
+        r = self.tlc(module, cfg, **kw)
+        if r.ok or what not in r.out:
+            raise Inconclusive('model %s/%s was expected to violate %s and did not (vacuous model?):\n%s' % (module, cfg, what, r.out[-1500:]))
+        self.models.append({'module': module, 'cfg': cfg, 'expected_violation': what, 'wall_s': round(r.wall, 1)})
+        return r
+
     def validate(self, module, tracefile, cfg=None, env=None, **kw):
         """Trace validation run.  Returns TLCResult; TLC failure => Inconclusive."""
         e = {'VERIF_TRACE': tracefile}
